@@ -113,7 +113,7 @@ def _check_all_dags(U, out, family, case, rec, key):
     if (sum(out) + len(out)) % 8 == 3:
         # a sufficient max_combinations must not change the answer
         try:
-            l2, g2 = _gc.result_set(U.all_dags(gmat.to_np(out), max_combinations=2 ** und))
+            l2, g2 = _gc.result_set(U.all_dags(gmat.to_np(out), max_combinations=2 ** und) if und % 2 else U.all_dags(gmat.to_np(out), 2 ** und))
             rec.count("keyword:max_combinations")
             if g2 != got or len(l2) != len(lst):
                 rec.violation("C07:all_dags-max_combinations-changes-result", family, case,
@@ -154,10 +154,15 @@ def _check_ice(U, out, want, family, case, rec, extra_rng=None):
         for _ in range(2):   # DAGs with another skeleton: must be rejected
             g = gmat.random_dag_masks(extra_rng, parts.p)
             cands.append(g)
-    for g in cands:
+    wrng = util.rng_for("C07ice", tuple(out))
+    for gi, g in enumerate(cands):
         expect = tuple(g) in want
+        # the candidate DAG as 0/1 matrix or (one in three) as a real weight matrix of any sign: only its non-zero pattern may matter
+        Garg = gmat.to_np(g) if (gi + parts.p) % 3 else gmat.weighted(wrng, g, ("signed", "tiny", "int")[gi % 3], dtype=int if gi % 3 == 2 else float)
+        if (gi + parts.p) % 3 == 0:
+            rec.count("ice:weighted-candidate")
         try:
-            r = U.is_consistent_extension(gmat.to_np(g), P)
+            r = U.is_consistent_extension(Garg, P)
         except Exception as e:
             rec.exception_violation("C07:ice-exception", family, case, "is_consistent_extension raised", e)
             continue
@@ -179,7 +184,11 @@ def _check_mec(U, out, family, case, rec, key, A=None, chain_variants=(True,)):
         rec.count("keyword:check_chain=False")
     for cc in chain_variants:
         try:
-            res = U.mec(A, check_chain=cc) if cc is not True else U.mec(A)
+            if len(out) % 2 and cc is not True:
+                res = U.mec(A, cc)         # the second parameter given positionally
+                rec.count("call-form:positional")
+            else:
+                res = U.mec(A, check_chain=cc) if cc is not True else U.mec(A)
             lst, got = _gc.result_set(res)
         except Exception as e:
             rec.exception_violation("C07:mec-exception", family, case, "mec raised %s" % type(e).__name__, e)
